@@ -58,6 +58,7 @@ def history(rng, tier, contract=True):
     nodes = {}
     ops = ["agg new %d %d" % (A, I)]
     n = rng.randint(1, 80)
+    perm_p = rng.choice([0, 0, 0.3, 1.0])
     per_key = {}
     for _ in range(n):
         r = rng.random()
@@ -83,6 +84,9 @@ def history(rng, tier, contract=True):
                 e, st = nodes[k][side].next(contract)
                 f = AG.inter_src if side == "S" else AG.inter_dst
                 ops.append(f(k, nodes[k]["start"], e, st))
+            if perm_p and rng.random() < perm_p:
+                # exporters need not list the fields of a record in the same order (and a template refresh may reorder them)
+                ops[-1] += " p%d" % rng.randrange(1, 1 << 30)
             ops.append("agg dump")
         elif r < 0.82:
             ops += ["agg adv %d" % rng.choice([1, 500, A, A + 1]), "agg scan - 1", "agg dump"]
